@@ -505,6 +505,36 @@ func callerSite(skip int) string {
 	return v
 }
 
+// callerFunc names the calling function ("file.go Func"), without a line: the line reported for
+// a deferred call differs between the plain and the race-detector build, and sites go into the
+// event log.
+//
+//go:norace
+func callerFunc(skip int) string {
+	var pcs [1]uintptr
+	if runtime.Callers(skip+1, pcs[:]) == 0 {
+		return "?"
+	}
+	pc := pcs[0]
+	if v, ok := funcCache.Load(pc); ok {
+		return v.(string)
+	}
+	fr, _ := runtime.CallersFrames(pcs[:]).Next()
+	f := fr.File
+	if i := strings.LastIndex(f, "/"); i >= 0 {
+		if j := strings.LastIndex(f[:i], "/"); j >= 0 {
+			f = f[j+1:]
+		}
+	}
+	fn := fr.Function
+	if i := strings.LastIndex(fn, "/"); i >= 0 {
+		fn = fn[i+1:]
+	}
+	v := f + " " + fn + " unlock"
+	funcCache.Store(pc, v)
+	return v
+}
+
 // yield is a plain scheduling point.
 //
 //go:norace
@@ -925,6 +955,7 @@ func (s *Sim) Close() {
 	theSim.CompareAndSwap(s, nil)
 }
 
+var funcCache = newSiteCache()
 var siteCache = newSiteCache()
 
 // StallTasks withholds the baton from every live task whose spawn site has the given prefix
